@@ -36,6 +36,20 @@ def scenarios(ctx):
         n = rng.choice([20, 40, 60])
         cmds = graphs.dag_commands(rng, n, chain=True)
         out.append(Scenario(graphs.shuffled(rng, cmds), ops=[("run",), ("run",)]))
+    # histories with a run stopped by a failure at execution time whose cause is then removed: the next run must complete the program
+    for _ in range(ctx.budget(30, 1200)):
+        n = rng.randrange(2, 9)
+        cmds = graphs.dag_commands(rng, n)
+        k = rng.randrange(n)
+        res, cmd, args = cmds[k]
+        cmds[k] = (res, cmd, list(args) + [("Fail", rng.choice(["flag", "flag", "flagvalue"]))])
+        names = [c[0] for c in cmds]
+        ops = [("run",)] if rng.random() < 0.8 else [("result", rng.choice(names))]
+        if rng.random() < 0.3:
+            ops.append(("run",))
+        ops.append(("flag", 0))
+        ops += [("run",)] + [(("run",) if rng.random() < 0.5 else ("result", rng.choice(names))) for _ in range(rng.randrange(0, 3))]
+        out.append(Scenario(graphs.shuffled(rng, cmds), ops=ops))
     return out
 
 
@@ -50,7 +64,30 @@ def rand_ops(rng, cmds):
     return ops
 
 
+def oracle_recovery(ctx, sc, res):
+    """a run stopped by an execution-time failure, the cause removed, then run(): everything completes exactly once, nothing that had
+    completed before runs again, and the failing command's body is entered again (it did not count as executed)"""
+    names = [c[0] for c in sc.commands]
+    cut = sc.ops.index(("flag", 0))
+    if res["load"] != "ok" or any(o != "ok" for o in res["ops"][cut:]):
+        ctx.fail("after the cause of the failure was removed the program still fails: load=%s ops=%s" % (res["load"], res["ops"]), sc.describe())
+        return
+    done = [e[1:] for e in res["log"] if e[0] == "-"]
+    for n in names:
+        if done.count(n) != 1:
+            ctx.fail("command %s completed %d times over a failed run followed by a successful one (expected exactly once)" % (n, done.count(n)), sc.describe())
+            return
+    for consumer, producer, fin_before, is_final in res["reads"]:
+        if not is_final:
+            ctx.fail("%s read a result of %s that is not that command's finished result" % (consumer, producer), sc.describe())
+            return
+    if sorted(res["finished"]) != sorted(names):
+        ctx.fail("after the successful run() the commands %r are not finished" % sorted(set(names) - set(res["finished"])), sc.describe())
+
+
 def oracle(ctx, sc, res):
+    if ("flag", 0) in sc.ops:
+        return oracle_recovery(ctx, sc, res)
     if res["load"] != "ok" or any(o != "ok" for o in res["ops"]):
         ctx.fail("an acyclic well-formed model failed: load=%s ops=%s" % (res["load"], res["ops"]), sc.describe())
         return
